@@ -351,10 +351,18 @@ class PDFStream(PDFObject):
 
             elif f in LITERALS_LZW_DECODE:
                 data = lzwdecode(data)
-            elif f in LITERALS_ASCII85_DECODE:
-                data = ascii85decode(data)
-            elif f in LITERALS_ASCIIHEX_DECODE:
-                data = asciihexdecode(data)
+            elif f in LITERALS_ASCII85_DECODE or f in LITERALS_ASCIIHEX_DECODE:
+                try:
+                    if f in LITERALS_ASCII85_DECODE:
+                        data = ascii85decode(data)
+                    else:
+                        data = asciihexdecode(data)
+                except ValueError as e:
+                    # binascii.Error is a ValueError, too
+                    if settings.STRICT:
+                        error_msg = f"Invalid ASCII encoded bytes: {e!r}, {data!r}"
+                        raise PDFException(error_msg)
+                    data = b""
             elif f in LITERALS_RUNLENGTH_DECODE:
                 data = rldecode(data)
             elif f in LITERALS_CCITTFAX_DECODE:
